@@ -596,7 +596,31 @@ func (e *Exec) encodeStruct(v *Struct, t types.Type) JVal {
 				fv = x
 			}
 		}
-		jv = e.encode(fv, ft)
+		skip := false
+		if g.IsTrue() {
+			jv = e.encode(fv, ft)
+		} else {
+			// a member whose presence is symbolic: an error while encoding its value counts only on the
+			// paths where the member is present
+			func() {
+				defer func() {
+					if r := recover(); r != nil {
+						je, isErr := r.(jsonErr)
+						if !isErr {
+							panic(r)
+						}
+						if e.Branch(g) {
+							panic(je)
+						}
+						skip = true
+					}
+				}()
+				jv = e.encode(fv, ft)
+			}()
+		}
+		if skip {
+			continue
+		}
 		var gp *T
 		if !g.IsTrue() {
 			gp = g
